@@ -432,6 +432,21 @@ def _lookup_cases(draw, tier):
             "classes": sorted(set(lf["kind"] for lf in lfs))}
 
 
+def law_reference_usable(spec, load, sec):
+    """The wrapped real law may serve as 'exact law' for the consequence checks only where C06 asserts it: inside C06's load
+    domain (|L| >= 1e-3 R_m; below about 1e-3 MPa Seeger-Beste returns garbage) and outside C06's listed finding classes."""
+    a = abs(load)
+    if a < 1e-3 * spec["Rm"] * (2.0 if sec else 1.0):
+        return False
+    if spec["law"] == "SB":
+        m = {"E": spec["E"], "K": spec["K"], "n": spec["n"]}
+        root = _c06.ref_stress("SB", a, m, spec["K_p"], sec)
+        fname = "stress_secondary_branch" if sec else "stress"
+        if _c06.f06b_mirror_root("SB", fname, a, root, spec["K_p"], DEFAULT_TOL, DEFAULT_TOL, m, sec):
+            return False
+    return True
+
+
 def _exact_real(spec, fn, absloads):
     """the wrapped real law's own value at the loads (vectorised call, zero excluded: see C06 F06_d)."""
     law = make_wrapped(spec)
@@ -482,12 +497,17 @@ def lookup_sc(case, ctx):
         exact = {abs(L): spy_ref(fn, abs(L)) for L in loads}
         slack = lambda v: SPY_ULPS * abs(v)
     else:
-        exact = _exact_real(spec, fn, [abs(L) for L in loads])
+        usable = [abs(L) for L in loads if L != 0 and law_reference_usable(spec, L, sec)]
+        if len(usable) < len([L for L in loads if L != 0]):
+            ctx.label("law_reference_outside_c06_domain")
+        exact = _exact_real(spec, fn, usable)
         slack = _bound if not fn.startswith("strain") else (lambda v: 0.0)
     for L, g in zip(loads, got):
         if L == 0:
             if g != 0:
                 raise Violation("binned %s(0) = %r" % (fn, g), bucket="lookup:zero")
+            continue
+        if abs(L) not in exact:
             continue
         ex = exact[abs(L)]
         k = expected_class(el, abs(L))
